@@ -61,6 +61,7 @@ def run(tier):
         jobs.append((["total", "--mode", "neighbours", "--files", lst, "--stride-char", str(sc), "--stride-tok", str(st), "--shard", f"{i}/{n}"], "neighbours"))
     jobs.append((["total", "--mode", "nest", "--depth", "64"], "nest"))
     jobs.append((["total", "--mode", "literals"], "literals"))
+    jobs.append((["total", "--mode", "arity"], "arity"))
     with Pool(n) as pool:
         res = pool.map(_run, jobs)
     tot = {"inputs": 0, "lex_ok": 0, "parse_ok": 0, "check_ok": 0, "emit_ok": 0, "fmt_ok": 0}
@@ -82,7 +83,9 @@ def run(tier):
         "rule": f"all strings of <= {max_chunks} chunks over a 32-chunk alphabet (raw fragments and whole tokens); for {len(files)} repository sources every "
         f"{sc}-th prefix / single-char deletion, each of the 32 chunks inserted at every {st}-th token boundary, and at every {st}-th token the deletion of 1, 2 and 3 consecutive tokens, "
         "its duplication and its swap with the next token; nesting ladders (brackets, blocks, unary, calls, "
-        "types, f-strings, chains) to depth 64; 96 unusual literal / identifier / operator tokens in 26 expression, pattern, type and declaration positions; distinct = distinct (stage statuses, normalised first diagnostic) outcome",
+        "types, f-strings, chains) to depth 64; 14 type names x 8 argument lists (every arity 0..4, bare, nested) in 46 consuming positions (match with every "
+        "constructor pattern, ?, for, index, methods, unpacking, tuple fields, returns of every literal kind, annotations, fields, enum payloads, newtypes, comprehensions, "
+        "operators, calls, nested in List/Dict/Option, trait methods, const, await); 96 unusual literal / identifier / operator tokens in 26 expression, pattern, type and declaration positions; distinct = distinct (stage statuses, normalised first diagnostic) outcome",
         "samples": ["def f() -> int:(", "match x:\n    case \"s\"=>0", {"file": files[0], "edit": "delete char 17"}],
         "exhaustive": True,
         "inputs_by_mode": by_mode,
